@@ -214,3 +214,32 @@ def window_model(ctx, env):
 
 c.params = _win_params
 c.model = window_model
+
+
+# ---------------------------------------------------------------------------------------
+# client lemma over the contract of pad (its body is proved equal to pad_model): padding to a shape that is
+# at least as large on both axes and cropping back is the identity - 2-D arrays and cubes, every parity mix
+
+def pad_round_trip(ctx):
+    for cube in (False, True):
+        n, m = shape2(ctx, 'a')
+        N, M = shape2(ctx, 'big')
+        ctx.assume(z3.And(S.z(S.ge(N, n)), S.z(S.ge(M, m))))
+        if cube:
+            d = ctx.fresh_int('depth')
+            ctx.assume(d >= 1)
+            a = array(ctx, 'a', (d, n, m), 'float')
+        else:
+            a = array(ctx, 'a', (n, m), 'float')
+        big = pad_model(ctx, {'array': a, 'shape': (N, M)})
+        back = pad_model(ctx, {'array': big, 'shape': (n, m)})
+        i, j, k = ints(ctx, 'i', 'j', 'k')
+        idx = ((k,) if cube else ()) + (i, j)
+        inr = z3.And(i >= 0, i < S.z(n), j >= 0, j < S.z(m), *( [k >= 0, k < S.z(a.shape[0])] if cube else []))
+        tag = 'cube' if cube else '2-D'
+        ctx.oblige('C20::pad.grow_then_crop_back_is_the_identity[%s].shape' % tag,
+                   z3.And(S.z(S.eq(back.shape[-2], n)), S.z(S.eq(back.shape[-1], m))))
+        ctx.oblige('C20::pad.grow_then_crop_back_is_the_identity[%s]' % tag, z3.Implies(inr, S.z(S.eq(back.at(idx), a.at(idx)))))
+
+
+LEMMAS = [('C20::pad_round_trip', pad_round_trip)]
